@@ -58,7 +58,7 @@ PROPS = {
                 focus={'entityDelete', 'updatePose', 'assetAdd'},
                 topics=slice_of(['entityDelete', 'updatePose', 'assetAdd'],
                                 outs={'error', 'entityDeleteResp', 'entityDeleteBcast', 'poseBcast', 'assetAddResp', 'assetAddBcast'})),
-    'C06': dict(extra=['conc_explore'], modules=['Hagall.Props.C06'], profiles=['join', 'module', 'comp', 'mixed', 'subs'], n=(240, 4000),
+    'C06': dict(extra=['conc_explore'], modules=['Hagall.Props.C06', 'Hagall.Props.C06Conc'], profiles=['join', 'module', 'comp', 'mixed', 'subs'], n=(240, 4000),
                 focus={'join', 'entityAdd', 'compAdd', 'action', 'assetAdd'},
                 topics=slice_of(['disconnect', 'join', 'receipt'], kinds=['outcome'],
                                 outs={'leaveBcast', 'entityDeleteBcast', 'sessionState', 'vikjaState', 'odalState'})),
@@ -68,7 +68,7 @@ PROPS = {
                 tools=['idstress', 'wire-race', 'drive', 'extract', 'wire'], extra=['id_stress', 'race_harness', 'wire_harness', 'conc_explore'],
                 topics=slice_of(['join', 'entityAdd', 'typeAdd', 'typeGetName', 'typeGetId', 'assetAdd'], kinds=['state'], answer_only=True,
                                 outs={'joinResp', 'entityAddResp', 'typeAddResp', 'typeNameResp', 'typeIdResp', 'assetAddResp'})),
-    'C12': dict(tools=['drive', 'extract', 'wire-race'], extra=['race_harness', 'conc_explore'], modules=['Hagall.Props.C12', 'Hagall.Props.C12Conc', 'Hagall.Props.C12Add'], profiles=['comp', 'mixed'], n=(240, 4000), focus=set(COMP) | {'entityDelete'},
+    'C12': dict(tools=['drive', 'extract', 'wire-race'], extra=['race_harness', 'conc_explore'], modules=['Hagall.Props.C12', 'Hagall.Props.C12Conc', 'Hagall.Props.C12Add', 'Hagall.Props.C06Conc'], profiles=['comp', 'mixed'], n=(240, 4000), focus=set(COMP) | {'entityDelete'},
                 topics=slice_of(COMP + ['entityDelete', 'join', 'disconnect'], outs=COMPOUTS | {'sessionState'})),
     'C13': dict(tools=['drive', 'extract', 'wire-race', 'wire'], extra=['race_harness', 'conc_explore', 'wire_harness'], modules=['Hagall.Props.C13', 'Hagall.Props.C13Conc'], profiles=['comp', 'mixed', 'subs'], n=(240, 4000),
                 focus={'compAdd', 'compDelete', 'compUpdate', 'subscribe', 'unsubscribe'},
